@@ -7,7 +7,9 @@ C08_<class>_roundtrip / _rewrite / _refuted) + correspondence on instances built
  (b) implementation writes, model parses (model's object = getters of the reloaded object; model's rewrite = impl's);
      model writes, implementation reads (getters = model's own reload);
  (c) support: record-trace hook (hooks/C08.patch) - the W-trace of a dump equals the R-trace of the reload, for every
-     serialisable class (also those without a model).  Skipped with a note when the hook is not in the library.
+     serialisable class.  Skipped with a note when the hook is not in the library.
+Every serialisable class of the library has a model (24 classes; coq/C08/Model*.v), in the format the library writes now.
+Strings that are not one data word (blank inside, leading '#', empty): theorems C08_string_* + directed cases.
 """
 import sys, os, math, tempfile, shutil, json
 from decimal import Decimal
@@ -53,6 +55,7 @@ def same_beh(a, b):
 
 def diffs(schema, a, b, conv_a, conv_b, eq, path=''):
     """list of (path, a, b) where the two trees differ"""
+    if conv_a is conv_b and a == b and schema != 'd': return []          # same encoding on both sides: equal subtrees are equal
     if schema == 'd':
         x, y = conv_a(a), conv_b(b)
         if '~' in path and eq is same15: eq = same_beh
@@ -160,8 +163,10 @@ def g_aneigh(rng, ndim=None, plain=False):
 
 # ----------------------------------------------------------------------------- classes
 class Cls:
-    def __init__(self, cid, name, G, X, gen, modelled=True):
-        self.cid, self.name, self.G, self.X, self.gen, self.modelled = cid, name, G, X, gen, modelled
+    def __init__(self, cid, name, G, X, gen, modelled=True, wave=1):
+        # ndial: number of format dialects the model of the class knows (see "Dialects" in coq/C08/Properties.v)
+        # wave 2: classes modelled later (fewer random cases in the quick tier)
+        self.cid, self.name, self.G, self.X, self.gen, self.modelled, self.wave = cid, name, G, X, gen, modelled, wave
 
 def gen_unique(rng, quick): return [g_aneigh(rng)], 'ndim%d' % 0
 def gen_bench(rng, quick): return [g_aneigh(rng), D(gdbl(rng, na=True, pos=True))], ''
@@ -362,13 +367,14 @@ LC = ('L', 'i')      # locator: () or (type index) -- compared as a list of ints
 DB = T(('nech', 'i'), ('names', Lst('s')), ('locators', Lst(LC)), ('values', Lst(Lst('d'))))
 XDB = T(('ndim', 'i'), ('nactive', 'i'), ('nz', 'i'), ('nx', 'i'))
 DBGRID = T(('grid', Lst(T(('nx', 'i'), ('x0', 'd'), ('dx', 'd'), ('angle', 'd')))), ('db', DB))
-VDIR = T(('flagRegular', 'b'), ('npas', 'i'), ('optionCode', 'i'), ('tolCode', 'd'), ('dpas', 'd'), ('tolDist', 'd'), ('grincr', Lst('i')),
-         ('tolAngle', 'd'), ('codir', Lst('d')), ('results', Lst(T(('sw', 'd'), ('hh', 'd'), ('gg', 'd')))))
-VARIO = T(('ndim', 'i'), ('nvar', 'i'), ('scale', 'd'), ('calcul', 'i'), ('variableNames', Lst('s')), ('vars', Lst(Lst('d'))), ('dirs', Lst(VDIR)))
-XVARIO = T(('flagAsym', 'b'), ('dates', Lst('d')), ('dirs', Lst(T(('bench', 'd'), ('cylRad', 'd'), ('idate', 'i'), ('breaks', Lst('d'))))))
+VDIR = T(('npas', 'i'), ('optionCode', 'i'), ('tolCode', 'd'), ('dpas', 'd'), ('tolDist', 'd'), ('grincr', Lst('i')),
+         ('tolAngle', 'd'), ('codir', Lst('d')), ('bench', 'd'), ('cylRad', 'd'), ('idate', 'i'), ('breaks', Lst('d')),
+         ('results', Lst(T(('sw', 'd'), ('hh', 'd'), ('gg', 'd')))))
+VARIO = T(('ndim', 'i'), ('nvar', 'i'), ('scale', 'd'), ('calcul', 'i'), ('dates', Lst('d')), ('variableNames', Lst('s')), ('vars', Lst(Lst('d'))), ('dirs', Lst(VDIR)))
+XVARIO = T(('flagAsym', 'b'))
 COVA = T(('type', 'i'), ('param', 'd'), ('ranges', Lst('d')), ('rotMat', Lst('d')), ('sill', Lst(Lst('d'))))
 MODEL = T(('ndim', 'i'), ('nvar', 'i'), ('field', 'd'), ('covs', Lst(COVA)), ('drifts', Lst('s')), ('means', Lst('d')), ('covar0', Lst(Lst('d'))))
-XMODEL = T(('~value', Lst('d')), ('~angles', Lst(Lst('d'))))
+XMODEL = T(('~value', Lst('d')), ('~angles', Lst(Lst('d'))), ('hasAnam', 'b'))
 
 
 # ---- classes without a model: dump / reload / dump on the implementation, printed text, record traces
@@ -429,14 +435,32 @@ def gen_frac(rng, quick):
     faults = [[gq(rng, 0, 6400), gq(rng, 0, 5760), [[gq(rng, 0, 128), gq(rng, 0, 128), gq(rng, 1, 1280), gq(rng, 1, 1280)] for _ in range(nf)]] for _ in range(rng.choice([0, 1, 2]))]
     return [gq(rng, 64, 6400), gq(rng, 64, 6400), gq(rng, 0, 64), gq(rng, 0, 64), gq(rng, 0, 1280), gq(rng, 0, 640), fams, faults], 'nfam%d' % nf
 def gen_neighimage(rng, quick):
-    ndim = rng.choice([1, 2, 2, 3]); return [ndim, [rng.choice([1, 2, 3, 10]) for _ in range(ndim)], rng.choice([0, 1, 3])], 'ndim%d' % ndim
+    ndim = rng.choice([1, 2, 2, 3]); return [ndim, [rng.choice([1, 2, 3, 10]) for _ in range(ndim)], rng.choice([0, 1, 3]), g_aneigh(rng, ndim)], 'ndim%d' % ndim
 TEXT = T(('~text', 's'))
+DBLINE = T(('lines', Lst(Lst('i'))), ('db', DB))
+DBGRAPH = T(('arcs', Lst(T(('row', 'i'), ('col', 'i'), ('value', 'd')))), ('db', DB))
+ADISC = [('zcut', Lst('d')), ('nelem', 'i'), ('stats', Lst('d'))]
+ANAMIR = T(*(ADISC + [('rCoef', 'd')]))
+ANAMDD = T(*(ADISC + [('sCoef', 'd'), ('mu', 'd'), ('pcaZ2F', Lst('d')), ('pcaF2Z', Lst('d'))]))
+MESHSTD = T(('ndim', 'i'), ('napices', 'i'), ('napexpermesh', 'i'), ('nmeshes', 'i'), ('apices', Lst('d')), ('meshes', Lst('i')))
+RULE = T(('mode', 'i'), ('rho', 'd'), ('nodes', Lst(T(('type', 'i'), ('facies', 'i')))))
+RSHIFT = T(('rule', RULE), ('slope', 'd'), ('shDown', 'd'), ('shDsup', 'd'), ('shift', Lst('d')))
+FAULTS = Lst(PTS)
+FRAC = T(('xmax', 'd'), ('ymax', 'd'), ('deltax', 'd'), ('deltay', 'd'), ('mean', 'd'), ('stdev', 'd'),
+         ('families', Lst(T(*[(n, 'd') for n in ('orient', 'dorient', 'theta0', 'alpha', 'ratcst', 'prop1', 'prop2', 'aterm', 'bterm', 'range')]))),
+         ('faults', Lst(T(('coord', 'd'), ('orient', 'd'), ('thetal', Lst('d')), ('thetar', Lst('d')), ('rangel', Lst('d')), ('ranger', Lst('d'))))))
+IMAGE = T(('base', ANEIGH), ('skip', 'i'), ('radius', Lst('i')))
+XDBLINE = T(('~text', 's'), ('db', XDB), ('nlines', 'i'))
+XDBGRAPH = T(('~text', 's'), ('db', XDB), ('arcMatrixRows', 'i'), ('arcMatrixCols', 'i'))
+XANAMDD = T(('~text', 's'), ('~mean', 'd'), ('~variance', 'd'), ('~pcaZ2F(i,j)', Lst('d')), ('~stats(i,j)', Lst('d')))
+XANAMIR = T(('~text', 's'), ('~mean', 'd'), ('~variance', 'd'), ('~stats(i,j)', Lst('d')))
+XMESHSTD = T(('~text', 's'), ('~apexCoor', Lst('d')), ('~apex', Lst('i')))
 EMPIRICAL = T(('azmin', 'd'), ('azmax', 'd'), ('aymin', 'd'), ('aymax', 'd'), ('pzmin', 'd'), ('pzmax', 'd'), ('pymin', 'd'), ('pymax', 'd'),
               ('mean', 'd'), ('variance', 'd'), ('sigma2e', 'd'), ('zDisc', Lst('d')), ('yDisc', Lst('d')), ('flagDilution', 'b'), ('flagGaussian', 'b'))
 TURBO = T(('nx', Lst('i')), ('dx', Lst('d')), ('x0', Lst('d')), ('rotMat', Lst('d')), ('polarized', 'b'), ('mode', 'i'), ('meshMask', Lst('i')), ('gridMask', Lst('i')))
 
 HERMITE = T(('azmin', 'd'), ('azmax', 'd'), ('aymin', 'd'), ('aymax', 'd'), ('pzmin', 'd'), ('pzmax', 'd'), ('pymin', 'd'), ('pymax', 'd'),
-            ('mean', 'd'), ('variance', 'd'), ('rCoef', 'd'), ('psiHn', Lst('d')))
+            ('mean', 'd'), ('variance', 'd'), ('rCoef', 'd'), ('psiHn', Lst('d')), ('flagBound', 'b'))
 CLASSES = [
     Cls(1, 'NeighUnique', ANEIGH, T(), gen_unique),
     Cls(2, 'NeighBench', T(('base', ANEIGH), ('width', 'd'), ('checkerWidth', 'd')), T(), gen_bench),
@@ -452,26 +476,27 @@ CLASSES = [
     Cls(11, 'DbGrid', DBGRID, T(('db', XDB), ('~lastNode', Lst('d'))), gen_dbgrid),
     Cls(12, 'Vario', VARIO, XVARIO, gen_vario),
     Cls(13, 'Model', MODEL, XMODEL, gen_model),
-    Cls(9, 'AnamHermite', HERMITE, T(('flagBound', 'b'), ('~psiHns', Lst('d')), ('~rawValue', Lst('d'))), gen_hermite),
-    Cls(20, 'DbLine', T(), TEXT, gen_dbline, modelled=False),
-    Cls(21, 'DbGraphO', T(), TEXT, gen_dbgrapho, modelled=False),
+    Cls(9, 'AnamHermite', HERMITE, T(('~psiHns', Lst('d')), ('~rawValue', Lst('d'))), gen_hermite),
+    Cls(20, 'DbLine', DBLINE, XDBLINE, gen_dbline, wave=2),
+    Cls(21, 'DbGraphO', DBGRAPH, XDBGRAPH, gen_dbgrapho, wave=2),
     Cls(22, 'AnamEmpirical', EMPIRICAL, TEXT, gen_anamemp),
-    Cls(23, 'AnamDiscreteDD', T(), TEXT, gen_anamdd, modelled=False),
-    Cls(24, 'AnamDiscreteIR', T(), TEXT, gen_anamir, modelled=False),
+    Cls(23, 'AnamDiscreteDD', ANAMDD, XANAMDD, gen_anamdd, wave=2),
+    Cls(24, 'AnamDiscreteIR', ANAMIR, XANAMIR, gen_anamir, wave=2),
     Cls(25, 'MeshETurbo', TURBO, TEXT, gen_meshturbo),
-    Cls(26, 'MeshEStandard', T(), TEXT, gen_meshstd, modelled=False),
-    Cls(27, 'Rule', T(), TEXT, gen_rule, modelled=False),
-    Cls(28, 'RuleShift', T(), TEXT, gen_ruleshift, modelled=False),
-    Cls(29, 'RuleShadow', T(), TEXT, gen_ruleshadow, modelled=False),
-    Cls(30, 'Faults', T(), TEXT, gen_faults, modelled=False),
-    Cls(31, 'FracEnviron', T(), TEXT, gen_frac, modelled=False),
-    Cls(32, 'NeighImage', T(), TEXT, gen_neighimage, modelled=False),
+    Cls(26, 'MeshEStandard', MESHSTD, XMESHSTD, gen_meshstd, wave=2),
+    Cls(27, 'Rule', RULE, TEXT, gen_rule, wave=2),
+    Cls(28, 'RuleShift', RSHIFT, TEXT, gen_ruleshift, wave=2),
+    Cls(29, 'RuleShadow', RSHIFT, TEXT, gen_ruleshadow, wave=2),
+    Cls(30, 'Faults', FAULTS, TEXT, gen_faults, wave=2),
+    Cls(31, 'FracEnviron', FRAC, TEXT, gen_frac, wave=2),
+    Cls(32, 'NeighImage', IMAGE, TEXT, gen_neighimage, wave=2),
 ]
 BYID = {c.cid: c for c in CLASSES}
 
 def beh_key(cls, path, case):
     if cls.name == 'AnamEmpirical': return 'AnamEmpirical:field-never-written'
-    if cls.name == 'MeshEStandard': return 'MeshEStandard:space-dimension-not-restored'          # regression
+    if cls.name == 'MeshEStandard' and path.endswith('text'): return 'MeshEStandard:space-dimension-not-restored'          # regression
+    if cls.name in ('AnamDiscreteIR', 'AnamDiscreteDD') and path.split('~')[-1] in ('mean', 'variance'): return 'AnamDiscrete:mean-variance-not-restored'
     if cls.name in ('RuleShift', 'RuleShadow') and len(case[2][1] if cls.name == 'RuleShift' else case[2][3]) < 3: return 'RuleShift:shift-padded-to-3-components'
     return '%s:behaviour-%s-differs' % (cls.name, path.split('~')[-1].rstrip('#'))
 
@@ -480,7 +505,9 @@ def fail_key(cls, case, what):
     if cls.name in ('Db', 'DbGrid'):
         cols = case[2][2] if cls.name == 'Db' else case[2][6]
         if any(' ' in US(c[0]) or US(c[0]).startswith('#') for c in cols): return 'Db:column-name-needs-quoting'
+    if cls.name == 'Vario' and len(case[2]) > 10 and any(' ' in US(n) or US(n).startswith('#') for n in case[2][10]): return 'Db:column-name-needs-quoting'
     if cls.name == 'Vario' and case[2][2] in (1, 2, 9): return 'Vario:calcul-type-not-saved'         # regression
+    if cls.name == 'Rule' and len(case[2][0]) == 1: return 'Rule:single-facies-rule-not-reloaded'
     if cls.name == 'NeighImage' and what == 'crash': return 'NeighImage:reload-writes-radius-out-of-bounds'  # regression
     if cls.name == 'DbLine' and case[2][2] < 2: return 'ASerializable:empty-vector-not-read-back'
     if cls.name == 'FracEnviron' and what == 'reload-fails' and not case[2][6] and case[2][7]: return 'ASerializable:empty-vector-not-read-back'
@@ -514,14 +541,126 @@ def key_of(cls, path, a, b, case, allpaths=()):
         if last == 'locators' and any(c[1] in (23, 24) for c in cols): return 'Db:locator-facies-gausfac-read-as-f-g'   # regression
         if last == 'names': return 'Db:name-collides-with-provisional-name'                  # regression
     if cls.name == 'Vario':
+        if len(case[2]) > 10 and any(' ' in US(n) or US(n).startswith('#') for n in case[2][10]): return 'Db:column-name-needs-quoting'
         if 'calcul' in allpaths or 'flagAsym' in allpaths: return 'Vario:calcul-type-not-saved'          # regression
         if p.startswith('dirs.results.') and a is None: return 'Vario:undefined-result-written-as-zero'  # regression
         if p in ('dirs.bench', 'dirs.cylRad', 'dirs.idate', 'dirs.breaks', 'dirs.flagRegular', 'dates'): return 'Vario:field-never-written'
+    if cls.name in ('RuleShift', 'RuleShadow') and p == 'shift' and path.endswith('#') and len(case[2][1] if cls.name == 'RuleShift' else case[2][3]) < 3:
+        return 'RuleShift:shift-padded-to-3-components'
     if cls.name == 'Model':
+        if p == 'hasAnam' or (len(case[2]) > 7 and case[2][7]): return 'Model:anamorphosis-not-written'
         if p == 'means' and case[2][4]: return 'Model:field-never-written'
         if p == 'covs.rotMat' and any(cv[5] and len(set(map(tuple, cv[3]))) <= 1 for cv in case[2][3]): return 'Model:rotation-of-isotropic-structure-not-saved'
-    return '%s:%s-not-preserved' % (cls.name, p)
+    if cls.name == 'MeshEStandard' and p == 'ndim': return 'MeshEStandard:space-dimension-not-restored'          # regression
+    return '%s:%s-not-preserved' % (cls.name, p or 'items')
 
+
+# ----------------------------------------------------------------------------- size boundary family
+# Objects of realistic size: a vector record is written on ONE line whatever its length (ASerializable::_recordWriteVec,
+# _tableWrite); the untitled values of a Table row share a line; the names of a Db are one record.  For every class that
+# holds such a record: one object whose longest line exceeds 10 000 characters and one beyond 100 000 (always run; the
+# lengths reached are checked and reported in coverage.size_family).
+def lv(k):
+    """a double with 15 significant digits (17 characters or so in the file)"""
+    return Fraction(float('%.15g' % (((k + 1) * 0.6180339887498949) % 1 * 1000 + 0.001)))
+def size_cases():
+    out = []
+    def add(cid, rec, target): out.append(([1, cid, rec], target))
+    for target, f in ((10000, 1), (100000, 10)):
+        # Table: a row of many untitled values
+        nc = 800 if f == 1 else 6200
+        add(5, [2, nc, [D(lv(k)) for k in range(2 * nc)], [], [], []], target)
+        # Db / DbGrid: many columns (one sample = one line; names and locators = one line each)
+        ncol = 800 if f == 1 else 6200
+        cols = [[S('v%d' % j), -1 if j % 3 else 1, (j // 3) if j % 3 == 0 else 0, [D(lv(j)), D(lv(j + 7))]] for j in range(ncol)]
+        add(10, [2, False, cols, True], target)
+        add(11, [[2], [D(Fraction(1))], [D(Fraction(0))], [D(Fraction(0))], False, False, cols, True], target)
+        # Db: long column names (one of 12 000 characters; 2 000 of 60 characters: the record of the names is one line)
+        if f == 1: add(10, [1, False, [[S('n' * 12000), -1, 0, [D(Fraction(1))]], [S('z'), 1, 0, [D(Fraction(2))]]]], target)
+        else: add(10, [1, False, [[S('concentration_of_the_element_number_%05d_in_parts_per_million' % j), -1, 0, [D(Fraction(j))]] for j in range(2000)], True], target)
+        # DbLine: one long line of samples
+        add(20, [2, 1, 2600 * f if f == 1 else 19000, 4711], target)
+        # AnamHermite: many coefficients
+        n = 750 if f == 1 else 5700
+        add(9, [0, True, D(Fraction(1)), [D(lv(k) / 1000) for k in range(n)], [], [], [], 0], target)
+        # AnamEmpirical: many discretisation points
+        nd = 700 if f == 1 else 5600
+        add(22, [nd, [], False, True, [D(Fraction((k * 7919) % (nd * 13) + 1, 1024)) for k in range(nd + 50)]], target)
+        # AnamDiscreteDD: the two PCA matrices (ncut x ncut values on one line)
+        n = 30 if f == 1 else 76
+        add(23, [D(Fraction(1)), D(Fraction(1, 4)), [D(Fraction(k + 1, 4)) for k in range(n)], [D(lv(k) / 1000) for k in range((n + 1) * 6)],
+                 [D(lv(k) / 1000) for k in range(n * n)], [D(lv(k + 5) / 1000) for k in range(n * n)]], target)
+        # AnamDiscreteIR: the statistics ((ncut + 1) x 4 values on one line)
+        n = 220 if f == 1 else 950
+        add(24, [D(Fraction(7, 8)), [D(Fraction(k + 1, 16)) for k in range(n)], [D(Fraction((k * 7919) % (n * 17) + 1, 256)) for k in range(4 * n)]], target)
+        # MeshETurbo on a masked grid: the ranks of the active meshes / nodes
+        nx = 52 if f == 1 else 100
+        add(25, [[nx, nx], [D(Fraction(1)), D(Fraction(1))], [D(Fraction(0)), D(Fraction(0))], [D(Fraction(0)), D(Fraction(0))], False,
+                 [D(Fraction(0 if k in (5, 77) else 1)) for k in range(nx * nx)], 1], target)
+        # MeshEStandard: a strip of triangles
+        k = 800 if f == 1 else 3600; ap = []; me = []
+        for i in range(k + 1): ap += [D(Fraction(i)), D(Fraction(0)), D(Fraction(i)), D(Fraction(1) + Fraction(i % 8, 16))]
+        for i in range(k): me += [2 * i, 2 * i + 1, 2 * i + 2, 2 * i + 1, 2 * i + 2, 2 * i + 3]
+        add(26, [2, ap, me], target)
+        # FracEnviron: a main fault with many families (four vectors of one value per family)
+        # (beyond 100 000 characters the file of a FracEnviron has tens of thousands of records: left out)
+        if f == 1:
+            nf = 700
+            fam = [D(Fraction(30)), D(Fraction(5)), D(Fraction(1, 2)), D(Fraction(1)), D(Fraction(0)), D(Fraction(1, 4)), D(Fraction(1, 8)), D(Fraction(2)), D(Fraction(3)), D(Fraction(10))]
+            add(31, [D(Fraction(100)), D(Fraction(50)), D(Fraction(0)), D(Fraction(0)), D(Fraction(10)), D(Fraction(2)), [fam] * nf,
+                     [[D(Fraction(20)), D(Fraction(45)), [[D(lv(k) / 1000), D(lv(k + 1) / 1000), D(lv(k + 2)), D(lv(k + 3))] for k in range(nf)]]]], target)
+        # Vario: irregular lags (the breaks are one record)
+        nb = 1900 if f == 1 else 9000
+        add(12, [1, 1, 0, D(Fraction(0)), [], 6, [[D(Fraction(k * k, 4)) for k in range(6)]], [[D(Fraction(k + 1)) for k in range(6)]],
+                 [[0, nb, D(Fraction(1)), D(Fraction(1, 2)), D(Fraction(90)), 0, 0, [], [], D(Fraction(0)), [D(Fraction(k, 512)) for k in range(nb + 1)], [D(Fraction(1))], []]], []], target)
+    return out
+
+# ----------------------------------------------------------------------------- running the two sides on large cases
+# (same protocol as common.run_impl / run_model; the results of the size family hold files of hundreds of thousands of
+#  characters as lists of character codes: they are parsed with a non-recursive reader, several times faster)
+import re, subprocess
+_TOK = re.compile(r'[()]|-?[0-9]+')
+def fast_parse(line):
+    stack = [[]]
+    for t in _TOK.findall(line):
+        if t == '(': stack.append([])
+        elif t == ')':
+            x = stack.pop(); stack[-1].append(x)
+        else: stack[-1].append(int(t))
+    return stack[0][0] if stack[0] else None
+
+def run_impl_fast(ctx, exe, casefile, env=None, timeout=1800):
+    outp = casefile + '.impl'
+    e = dict(os.environ); e.update(env or {})
+    open(outp, 'w').close()
+    with open(casefile + '.impl.log', 'w') as fl:
+        try: rc = subprocess.run([exe, casefile, outp], stdout=fl, stderr=fl, timeout=timeout, env=e).returncode
+        except subprocess.TimeoutExpired: rc = 124
+    return rc, [fast_parse(l) for l in open(outp) if l.strip()]
+
+def run_model_fast(ctx, runner, casefile, timeout=1800):
+    """the extracted model on the case file, split in parts evaluated in parallel (stack limit lifted: the lexer of the
+    model is structurally recursive on the characters of the file)"""
+    from concurrent.futures import ThreadPoolExecutor
+    lines = [l for l in open(casefile) if l.strip() and not l.startswith('#')]
+    jobs = min(NPROC, max(1, len(lines) // 8))
+    def one(j):
+        part = casefile + '.part%d' % j
+        with open(part, 'w') as f: f.writelines(lines[j::jobs])
+        with open(part + '.out', 'w') as fo:
+            try: rc = subprocess.run(['bash', '-c', 'ulimit -s unlimited; exec "%s" "%s"' % (runner, part)], stdout=fo, stderr=subprocess.DEVNULL, timeout=timeout).returncode
+            except subprocess.TimeoutExpired: rc = 124
+        out = [fast_parse(l) for l in open(part + '.out') if l.strip()]
+        os.remove(part); os.remove(part + '.out')
+        return rc, out
+    with ThreadPoolExecutor(max_workers=jobs) as ex: parts = list(ex.map(one, range(jobs)))
+    res = [None] * len(lines); rc = 0
+    for j, (r, out) in enumerate(parts):
+        rc = rc or r
+        for k, idx in enumerate(range(j, len(lines), jobs)):
+            res[idx] = out[k] if k < len(out) else None
+    if any(r is None for r in res): res = [r for r in res if r is not None]
+    return rc, res
 # ----------------------------------------------------------------------------- main
 def replay(ctx, path):
     """bin/check C08 --replay <replay file>: runs the recipe of a replay file again and prints what differs"""
@@ -557,10 +696,10 @@ def run(ctx):
         # python3 checks/C08.py C08 --replay <file>   or   VERIF_REPLAY=<file> bin/check C08
         return replay(ctx, os.environ.get('VERIF_REPLAY') or sys.argv[3])
     quick = ctx.quick()
-    build_lib(ctx)
-    proofs_ok = coq_properties(ctx)
-    runner = build_runner(ctx)
-    exe = build_harness(ctx, 'C08')
+    build_lib(ctx); ctx.log('library ready')
+    proofs_ok = coq_properties(ctx); ctx.log('theorems re-checked')
+    runner = build_runner(ctx); ctx.log('model runner ready')
+    exe = build_harness(ctx, 'C08'); ctx.log('harness ready')
     if runner is None or exe is None:
         print('ERROR: model runner or harness does not build'); sys.exit(3)
     rng = ctx.rng
@@ -579,27 +718,37 @@ def run(ctx):
     ctx.assumptions = ['objects are built through the public API; strings are non-empty words without blanks (other strings are exercised separately and reported)',
                        'values compared to 15 significant digits (relative 6e-15), undefined values must stay undefined']
 
-def run_impl_all(ctx, exe, name, cases, env, chunk=40):
-    """run the harness on all the cases, a few dozen per process; when a process dies, its cases are run again one per
-    process, so that a crash is charged to the case that crashes alone (result (-990 phase)) and to no other"""
-    out = []
-    def run_some(tag, sub):
+def run_impl_all(ctx, exe, name, cases, env, chunk=24, workers=6):
+    """run the harness on all the cases, a few dozen per process (several processes at a time, each in its own scratch
+    directory); when a process dies, its cases are run again one per process, so that a crash is charged to the case that
+    crashes alone (result (-990 phase)) and to no other"""
+    from concurrent.futures import ThreadPoolExecutor
+    base = env['VERIF_C08_DIR']
+    def run_some(tag, sub, e):
         cf = write_cases(ctx, '%s_%s' % (name, tag), sub)
-        rc, res = run_impl(ctx, exe, cf, env=env)
+        rc, res = run_impl_fast(ctx, exe, cf, env=e)
         return res
-    for start in range(0, len(cases), chunk):
-        sub = cases[start:start + chunk]
-        res = run_some('c', sub)
-        if len(res) == len(sub):
-            out += res; continue
-        for k, c in enumerate(sub):          # isolate
-            r = run_some('i', [c])
+    def do_chunk(k):
+        sub = cases[k * chunk:(k + 1) * chunk]
+        d = os.path.join(base, '%s_c%d' % (name, k))
+        os.makedirs(d, exist_ok=True)
+        e = dict(env); e['VERIF_C08_DIR'] = d
+        res = run_some('c%d' % k, sub, e)
+        if len(res) == len(sub): return res
+        out = []
+        for j, c in enumerate(sub):          # isolate
+            r = run_some('i%d_%d' % (k, j), [c], e)
             if len(r) == 1: out.append(r[0])
             else:
-                try: phase = open(os.path.join(env['VERIF_C08_DIR'], 'progress.txt')).read()
+                try: phase = open(os.path.join(d, 'progress.txt')).read()
                 except Exception: phase = '?'
                 out.append([-990, S(phase)])
-    return out
+        return out
+    nchunk = (len(cases) + chunk - 1) // chunk
+    # the heaviest cases first is not needed: the chunks are of comparable weight except the size family, which is split
+    with ThreadPoolExecutor(max_workers=max(1, workers)) as ex:
+        parts = list(ex.map(do_chunk, range(nchunk)))
+    return [r for part in parts for r in part]
 
 def load_corpus(ctx):
     p = os.path.join(VERIF, 'corpus', ctx.pid + '.sx')
@@ -614,12 +763,34 @@ def main_part(ctx, quick, rng, runner, exe, env):
     for c in load_corpus(ctx):
         if c[0] == 1 and c[1] in BYID: cases.append(c); tags.append('corpus')
     for cls in CLASSES:
-        for _ in range(per if cls.modelled else max(6, per // 3)):
+        for _ in range(per if (cls.modelled and cls.wave == 1) else max(6, per // 2)):
             rec, tag = cls.gen(rng, quick)
             cases.append([1, cls.cid, rec]); tags.append(tag)
             ctx.dist('%s:%s' % (cls.name, tag))
+    # the size family, spread among the other cases (the cases are run by groups, several groups at a time)
+    size_target = {}
+    sc = size_cases(); step = max(1, len(cases) // (len(sc) + 1))
+    merged = []; mtags = []; k = 0
+    for j, (c, t) in enumerate(zip(cases, tags)):
+        if j % step == step - 1 and k < len(sc):
+            size_target[len(merged)] = sc[k][1]; merged.append(sc[k][0]); mtags.append('size>%dk' % (sc[k][1] // 1000)); k += 1
+        merged.append(c); mtags.append(t)
+    for c, target in sc[k:]:
+        size_target[len(merged)] = target; merged.append(c); mtags.append('size>%dk' % (target // 1000))
+    cases, tags = merged, mtags
+    for i, target in size_target.items(): ctx.dist('%s:size>%dk' % (BYID[cases[i][1]].name, target // 1000))
     # ---- phase 1: implementation round trip
+    ctx.log('phase 1: %d cases' % len(cases))
     impl = run_impl_all(ctx, exe, 'p1', cases, env)
+    ctx.log('phase 1 done (%d cases on the implementation)' % len(cases))
+    ctx.cov['size_family'] = []
+    for i, target in sorted(size_target.items()):
+        r = impl[i]; name = BYID[cases[i][1]].name
+        if r is None or len(r) < 11: ctx.cov['size_family'].append([name, target, None, 'no result']); continue
+        longest = max(len(l) for l in US(r[1]).split('\n')) if r[1] else 0
+        ctx.cov['size_family'].append([name, target, longest, 'reloaded' if r[2] else 'NOT reloaded'])
+        if r[0] and longest < target:
+            ctx.notes.append('size family: the %s case meant for a line of more than %d characters only reaches %d' % (name, target, longest))
     hook = any(r[10] for r in impl if r and len(r) > 10)
     if not hook: ctx.notes.append('record-trace hook (hooks/C08.patch) not present in the library: part (c) skipped')
     # ---- phase 2: the model parses impl's file; the model writes the original object
@@ -636,7 +807,9 @@ def main_part(ctx, quick, rng, runner, exe, env):
             mcases.append([1, cls.cid, r[1], aux]); mref.append((i, 'parse'))
         mcases.append([2, cls.cid, to_model(cls.G, r[3]), aux]); mref.append((i, 'write'))
     mf = write_cases(ctx, 'p2', mcases)
-    rcm, mres = run_model(ctx, runner, mf)
+    ctx.log('phase 2: %d cases for the model' % len(mcases))
+    rcm, mres = run_model_fast(ctx, runner, mf)
+    ctx.log('phase 2 done')
     if len(mres) != len(mcases):
         print('ERROR: model runner returned %d results for %d cases' % (len(mres), len(mcases))); sys.exit(3)
     parsed = {}; written = {}
@@ -644,16 +817,33 @@ def main_part(ctx, quick, rng, runner, exe, env):
         if res and res[0] == -999:
             print('ERROR: model rejected case', i, what, sx_str(mcases[mref.index((i, what))])[:300]); sys.exit(3)
         (parsed if what == 'parse' else written)[i] = res
+    uq = lambda p: unq(p)
+    def phase2_drift(cls, r, p, w):
+        okd, fileA, okl, G0, X0, G1, X1, fileB = r[:8]
+        fileA, fileB = US(fileA), US(fileB)
+        out = []
+        if not okd: return out
+        if p is not None:
+            if (p[0] == 1) != bool(okl): out.append('model %s the file, implementation %s it' % ('reads' if p[0] == 1 else 'rejects', 'reads' if okl else 'rejects'))
+            elif okl:
+                d = diffs(cls.G, p[1], G1, uq, undy, close_model)
+                if d: out.append('model reading of the file differs from the reloaded object at %s' % d[:2])
+                e = files_equiv(US(p[2]), fileB)
+                if e: out.append('model rewrite differs from the implementation rewrite: ' + e)
+        if w is not None:
+            e = files_equiv(US(w[0]), fileA)
+            if e: out.append('file printed by the model for the original object differs from the dump: ' + e)
+        return out
     # ---- phase 3: implementation reads the files written by the model
     rcases = []; rref = []
     for i, res in written.items():
         text = render_numbers(US(res[0]))
         rcases.append([2, cases[i][1], S(text)]); rref.append(i)
     rres = run_impl_all(ctx, exe, 'p3', rcases, env)
+    ctx.log('phase 3 done')
     reread = {i: r for i, r in zip(rref, rres)}
     # ---- verdicts
     ndis = 0
-    uq = lambda p: unq(p)
     for i, (c, r) in enumerate(zip(cases, impl)):
         cls = BYID[c[1]]
         if r is None or len(r) < 11:
@@ -674,7 +864,11 @@ def main_part(ctx, quick, rng, runner, exe, env):
         ctx.count(sx_str(c)); ctx.sample({'class': cls.name, 'recipe': sx_str(c[2])[:200], 'file': fileA[:300]}, maxn=6)
         vio = []          # (key, text)
         if not okd: vio.append((fail_key(cls, c, 'dump-fails'), 'dumpToNF fails'))
-        elif not okl: vio.append((fail_key(cls, c, 'reload-fails'), 'createFromNF fails on the file just written'))
+        elif not okl:
+            longest = max(len(l) for l in fileA.split('\n'))
+            if longest >= 10000 and not any(' ' in US(col[0]) or US(col[0]).startswith('#') for col in (c[2][2] if cls.name == 'Db' else c[2][6] if cls.name == 'DbGrid' else [])):
+                vio.append(('ASerializable:long-record-line-not-read-back', '%s: createFromNF fails on the file just written, whose longest line has %d characters' % (cls.name, longest)))
+            else: vio.append((fail_key(cls, c, 'reload-fails'), 'createFromNF fails on the file just written'))
         else:
             beh = []
             dl = diffs(cls.G, G0, G1, undy, undy, same15) + diffs(cls.X, X0, X1, undy, undy, same15)
@@ -704,19 +898,10 @@ def main_part(ctx, quick, rng, runner, exe, env):
         # correspondence (b)
         drift = []
         if cls.modelled and okd:
-            if i in parsed:
-                p = parsed[i]
-                if (p[0] == 1) != bool(okl): drift.append('model %s the file, implementation %s it' % ('reads' if p[0] == 1 else 'rejects', 'reads' if okl else 'rejects'))
-                elif okl:
-                    d = diffs(cls.G, p[1], G1, uq, undy, close_model)
-                    if d: drift.append('model reading of the file differs from the reloaded object at %s' % d[:2])
-                    e = files_equiv(US(p[2]), fileB)
-                    if e: drift.append('model rewrite differs from the implementation rewrite: ' + e)
+            drift = phase2_drift(cls, r, parsed.get(i), written.get(i))
             if i in written:
                 w = written[i]
-                e = files_equiv(US(w[0]), fileA)
-                if e: drift.append('file printed by the model for the original object differs from the dump: ' + e)
-                else:
+                if not files_equiv(US(w[0]), fileA):
                     td = titles_differ(US(w[0]), fileA)
                     if td and ('titles:' + cls.name) not in ctx.notes_seen:
                         ctx.notes_seen.add('titles:' + cls.name)
@@ -799,6 +984,7 @@ def grid_formats(ctx, quick, rng, exe, env):
         cols = [[undy(v) for v in col] for col in c[6]]
         why = []
         if r is None or (r and r[0] in (-990, -997, -995)): why.append(('crash', 'the process crashes or throws (%r)' % (r,)))
+        elif not r[0] and fmt == 0 and len(cols) > 1: continue        # a format for one variable refuses several: nothing is written
         elif not r[0]: why.append(('write-refused', 'the grid cannot be written'))
         elif not r[1]: why.append(('read-fails', 'the file just written cannot be read'))
         else:
@@ -817,17 +1003,19 @@ def grid_formats(ctx, quick, rng, exe, env):
                     bad = [i for i in range(min(len(a), len(b))) if not close(a[i], b[i], 2e-5)]
                     if len(a) != len(b) or bad:
                         i = bad[0] if bad else 0
-                        why.append(('values', 'variable %d, node %d: %r written, %r read' % (j + 1, i, a[i] if a[i] is None else float(a[i]), b[i] if i < len(b) and b[i] is None else (float(b[i]) if i < len(b) else None))))
+                        only3 = len(a) == len(b) and all(a[k] == 3 and b[k] is None for k in bad)
+                        why.append(('values-3' if only3 else 'values', 'variable %d, node %d: %r written, %r read' % (j + 1, i, a[i] if a[i] is None else float(a[i]), b[i] if i < len(b) and b[i] is None else (float(b[i]) if i < len(b) else None))))
         if not why: continue
         kinds = [w[0] for w in why]
         if fmt == 1:
             if 'values' in kinds and len(cols) > 1: key = 'GridIfpEn:several-variables-mixed'
+            elif 'values-3' in kinds: key = 'GridIfpEn:value-3-read-as-undefined'
             elif 'values' in kinds and any(v == 3 for col in cols for v in col): key = 'GridIfpEn:value-3-read-as-undefined'
             elif 'dimension' in kinds and len(nx) == 2 and kinds == ['dimension']: key = 'GridIfpEn:vertical-geometry-not-written'
             elif ('mesh' in kinds or 'origin' in kinds) and len(nx) == 3: key = 'GridIfpEn:vertical-geometry-not-written'
             else: key = 'GridIfpEn:' + kinds[-1]
         else:
-            key = 'GridZycor:' + ('single-node-direction' if 1 in nx else 'only-first-variable-written' if 'variables' in kinds else kinds[-1])
+            key = 'GridZycor:' + ('only-first-variable-written' if 'variables' in kinds else 'single-node-direction' if 1 in nx else kinds[-1])
         ctx.violation(key, '%s: %s' % (name, '; '.join(w[1] for w in why[:3])), {'format': name, 'case': sx_str(c), 'how': 'harness/C08.cpp operation 4: write the grid with the format class, read it back'})
         found = True
     return found
